@@ -57,6 +57,43 @@ def run(pid, tier, seed, cfg):
     failed = sorted(f for f in fns if not fns[f]['success'])
     violations = []
     search_info = None
+    # callee contracts this unit ASSUMES (stubs) are proved in their own unit: that unit must still hold on the current
+    # code, otherwise the proof above rests on a contract nobody backs.  Whether THIS property is then violated is for
+    # the failing-input search to say (the callee unit pins more than this property needs).
+    callee_info, callee_problems = [], []
+    for cu, callowed in cfg.get('callees', []):
+        problem = None
+        if cu == 'eval':
+            from . import p_eval
+            problem = p_eval.holds_problem()
+            callee_info.append({'unit': 'eval (+ table checker run)', 'holds': problem is None})
+            if problem:
+                callee_problems.append('EVAL: %s' % problem)
+            continue
+        try:
+            rc = run_verus(cu, compile_bin=False)
+            if rc.compile_error:
+                problem = 'does not compile on the current code: ' + rc.compile_error[-300:]
+            elif check_allowed(rc.assumption_scan, callowed):
+                problem = 'unexpected assumption %s' % check_allowed(rc.assumption_scan, callowed)[:2]
+            else:
+                cf = sorted(f for f, v in rc.functions.items() if not v['success'])
+                if cf:
+                    problem = 'obligation(s) failed: %s' % cf
+            callee_info.append({'unit': cu, 'functions_checked': len(rc.functions), 'holds': problem is None})
+        except Undecided as e:
+            problem = str(e)[:300]
+            callee_info.append({'unit': cu, 'holds': False})
+        if problem:
+            callee_problems.append('%s: %s' % (cu.upper(), problem))
+    if callee_problems and not failed:
+        n = cfg.get('search_n', {}).get(tier)
+        cmds = [[x.replace('{n}', str(n)) if n else x for x in c] for c in cfg.get('search', [])]
+        w, search_info = native_search(cmds, seed) if cmds else (None, None)
+        if w is None:
+            raise Undecided('callee contract assumed by unit %s is not re-established (%s); no failing input for %s was found' % (unit, '; '.join(callee_problems), pid))
+        violations.append(Violation(pid, 'callee contract assumed by %s not re-established [%s]' % (unit.upper(), callee_problems[0][:140]), '\n'.join(callee_problems), w,
+                                    key='callee:' + '+'.join(c.split(':')[0] for c in callee_problems), replay_kind='args'))
     if failed:
         # rlimit / timeout is not a proof failure
         if re.search(r'resource limit|rlimit|timed out', r.stderr, re.I) and not re.search(r'postcondition|precondition|assertion failed|invariant', r.stderr):
@@ -86,6 +123,7 @@ def run(pid, tier, seed, cfg):
         'canaries': {'inserted': ncan, 'vacuous': 0},
         'assumption_scan': ['%s %s' % (e['kind'], e['item']) for e in r.assumption_scan][:80],
         'stubs (callee contracts assumed here, proved in their own unit)': cfg.get('stubs', []),
+        'callee_units_rechecked': callee_info,
         'extracted_items': [{'item': i['item'], 'file': i['file'], 'rules': i.get('rules')} for i in r.items if not i['item'].startswith('const ')],
         'samples': cfg['samples'],
         'failing_input_search': search_info,
